@@ -411,6 +411,19 @@ def rule_c13_choice(prog: Program, col: Collector) -> None:
     ft = fterms(prog, ref)
     rets = list(ft.of_kind("return"))
     v = fuse_deep(rets[0].value, stop=lambda x: _is_valid_list(x, G)) if len(rets) == 1 else ("unknown", "")
+    def size_key(k, seq) -> bool:
+        return k is not None and k[0] == "lambda" and len(k[1]) == 1 and \
+            k[2] == ("call", ("global", "len"), (("index", ("attr", G, "explorable_coalitions"), k[1][0]),), ()) and _is_valid_list(seq, G)
+    if is_call_to(v, "max") and len(v[2]) == 1 and size_key(dict(v[3]).get("key"), v[2][0]) and set(dict(v[3])) == {"key"}:
+        # max(valid, key=size) returns the FIRST maximal element: the same choice
+        col.ok(ref.where(), ref.short, "largest = max(valid_actions, key=coalition size): first valid action of maximal size")
+        col.ok(ref.where(), ref.short, "the size compared is the MAXIMAL size among the valid coalitions")
+        return
+    if v[0] == "index" and v[2] in (("un", "-", ("const", 1)), ("const", -1)) and is_call_to(v[1], "sorted") and len(v[1][2]) == 1 \
+            and size_key(dict(v[1][3]).get("key"), v[1][2][0]) and not dict(v[1][3]).get("reverse"):
+        col.check(False, ref.where(), ref.short, "ties between coalitions of maximal size go to the LOWEST action index (found sorted(..., key=size)[-1]: the highest)",
+                  construct="largest-tie-last", necessity="sorted is stable, so its last element is the maximal-size action with the highest index; the rule says lowest")
+        return
     if not (is_call_to(v, "next") and v[2] and v[2][0][0] == "comp" and len(v[2][0][3]) == 1):
         col.undecidable(ref.where(), ref.short, f"largest choice not of the form next(act for act, coal in zip(...) if len(coal) == max): {short(v, 80)}")
         return
@@ -520,6 +533,30 @@ def rule_c13_expected_greedy(prog: Program, col: Collector) -> None:
     if not app or not rebuild:
         raise AnalysisError(f"{ref.short}: append of the chosen coalition / rebuild of the candidate list not found")
     a = app[0]
+    # the search runs until the sequence is full: the first pass evaluates the empty candidate and adds nothing, so there is one pass more than coalitions
+    outer = [f for f in stacked[0].ctx if f[0] in ("while", "for")]
+    ms = ("param", ref.positional_params()[1]) if len(ref.positional_params()) > 1 else None
+    if outer and ms is not None:
+        fr = outer[0]
+        len_seq = ("call", ("global", "len"), (a.recv,), ())
+        if fr[0] == "while":
+            t = fr[2]
+            okl = t[0] == "cmp" and t[1] == "<" and t[2] == len_seq and (t[3] == ms or (is_call_to(t[3], "min") and ms in t[3][2]))
+            col.check(okl, ref.where(fr[-1] if isinstance(fr[-1], ast.AST) else None), ref.short, "the search loop runs while len(sequence) < max_steps",
+                      construct="greedy-loop-test", necessity="the sequence must reach the requested number of coalitions")
+        else:
+            it = fr[3]
+            lim = it[2][0] if is_call_to(it, "range") and len(it[2]) == 1 else None
+            plus1 = lim is not None and lim[0] == "bin" and lim[1] == "+" and ("const", 1) in (lim[2], lim[3]) and \
+                any(x == ms or (is_call_to(x, "min") and ms in x[2]) for x in (lim[2], lim[3]))
+            if lim is not None and (lim == ms or (is_call_to(lim, "min") and ms in lim[2])):
+                col.check(False, ref.where(), ref.short, "the search makes max_steps + 1 passes (found a loop over range(max_steps))", construct="greedy-loop-count",
+                          necessity="the first pass only evaluates the empty candidate: with max_steps passes the sequence is one coalition short and the last row of the "
+                                    "curve keeps its initial value")
+            elif plus1:
+                col.ok(ref.where(), ref.short, "the search makes max_steps + 1 passes")
+            else:
+                col.undecidable(ref.where(), ref.short, f"trip count of the search loop not understood: {short(it, 60)}", rule="V5")
     chosen = a.args[0] if a.args else None
     col.check(bool(rem) and rem[0].args and rem[0].args[0] == chosen and [f[:3] for f in rem[0].ctx] == [f[:3] for f in a.ctx], ref.where(a.node), ref.short,
               "the coalition appended to the sequence is removed from the candidate set under the same condition", construct="greedy-remove",
